@@ -172,6 +172,16 @@ type execOutcome struct {
 	Kind   string // ok, nonzero, error, slow
 	Code   uint32
 	Output []byte
+	PadTo  int // >0: the data source prints at least this much and the executor caps it there (as the real executors do at the report size limit)
+}
+
+// finalOutput is what the stub executor returns for the outcome when it runs the given executable.
+func finalOutput(o execOutcome, exec []byte) []byte {
+	out := append(append([]byte{}, o.Output...), execTag(exec)...)
+	for len(out) < o.PadTo {
+		out = append(out, 'x')
+	}
+	return out
 }
 
 type execStub struct {
@@ -202,7 +212,7 @@ func (x *execStub) Exec(exec []byte, arg string, env interface{}) (executor.Exec
 		x.st.Fault("executor_nonzero_exit")
 	}
 	// the output names the executable that was actually run
-	return executor.ExecResult{Output: append(append([]byte{}, o.Output...), execTag(exec)...), Code: o.Code, Version: "v1"}, nil
+	return executor.ExecResult{Output: finalOutput(o, exec), Code: o.Code, Version: "v1"}, nil
 }
 
 // ---------------------------------------------------------------------------------------------
@@ -429,6 +439,7 @@ func RunOne(o core.RunOpts) (res *core.RunResult) {
 	ex := &execStub{s: s, plan: map[string]execOutcome{}, calls: map[string]int{}, st: st}
 	faulty := ch.Bool("cfg.faults", 700)
 	// fault plan
+	maxReport := int(app.OracleKeeper.GetParams(w.ReadCtx()).MaxReportDataSize)
 	for _, ri := range allReqs {
 		for _, rr := range ri.Stored.RawRequests {
 			key := fmt.Sprintf("%d/%d", ri.ID, rr.ExternalID)
@@ -442,6 +453,11 @@ func RunOne(o core.RunOpts) (res *core.RunResult) {
 				case 3:
 					o.Kind = "slow"
 				}
+			}
+			// a talkative data source: the executor caps the output at the chain's report size limit, so the raw report is exactly that long
+			if o.Kind != "error" && ch.Bool("exec.capped", 150) {
+				o.PadTo = maxReport
+				st.Fault("executor_output_capped_at_report_size_limit")
 			}
 			ex.plan[key] = o
 		}
@@ -608,7 +624,7 @@ func RunOne(o core.RunOpts) (res *core.RunResult) {
 					fail("exit_code_on_failure", "", "request %d external id %d: data source could not be fetched/run but exit code is %d (expected 255)", ri.ID, eid, r.ExitCode)
 				}
 			default:
-				wantOut := string(o.Output) + string(execTag(ri.Exec[eid]))
+				wantOut := string(finalOutput(o, ri.Exec[eid]))
 				if r.ExitCode != o.Code || string(r.Data) != wantOut {
 					fail("raw_report_content", "", "request %d external id %d: report carries exit code %d data %q; running the data source's current executable gives %d %q", ri.ID, eid, r.ExitCode, r.Data, o.Code, wantOut)
 				}
